@@ -269,6 +269,50 @@ class Model:
                 return m2, self.mod_globals[m2][n2]
         return None
 
+    def global_is_mutated(self, mod, name):
+        """some function of the package changes the module-level container `name` of `mod` in place (element store/delete, mutator call) or rebinds it (`global`):
+        its content at run time is not what the module body wrote"""
+        cache = self.__dict__.setdefault('_glob_mut_cache', {})
+        key = (mod, name)
+        if key in cache:
+            return cache[key]
+        MUT = {'append', 'extend', 'insert', 'pop', 'remove', 'clear', 'update', 'setdefault', 'add', 'discard', 'popitem', 'sort', 'reverse', 'appendleft', 'popleft', '__setitem__'}
+        hit = False
+        for fn in self.all_funcs():
+            if hit:
+                break
+            # the name as this function sees it
+            if fn.mod == mod:
+                local = name
+            else:
+                local = next((k_ for k_, v_ in self.imports.get(fn.mod, {}).items() if v_ == mod + '.' + name), None)
+            if local is None or local in fn.params:
+                continue
+            declared = any(isinstance(n, ast.Global) and local in n.names for n in ast.walk(fn.node))
+            rebinds_local = any(isinstance(n, ast.Name) and n.id == local and isinstance(n.ctx, ast.Store) for n in ast.walk(fn.node))
+            if rebinds_local and not declared:
+                continue            # a local of the same name
+            if rebinds_local and declared:
+                hit = True
+                break
+            for n in ast.walk(fn.node):
+                if isinstance(n, ast.Subscript) and isinstance(n.ctx, (ast.Store, ast.Del)):
+                    b = n
+                    while isinstance(b, ast.Subscript):
+                        b = b.value
+                    if isinstance(b, ast.Name) and b.id == local:
+                        hit = True
+                        break
+                if isinstance(n, ast.Call) and isinstance(n.func, ast.Attribute) and n.func.attr in MUT:
+                    b = n.func.value
+                    while isinstance(b, ast.Subscript):
+                        b = b.value
+                    if isinstance(b, ast.Name) and b.id == local:
+                        hit = True
+                        break
+        cache[key] = hit
+        return hit
+
     def module_func(self, mod):
         """pseudo-function standing for the module body (evaluation context of module-level expressions)"""
         if not hasattr(self, '_modfuncs'):
